@@ -75,11 +75,20 @@ def check_props(pid):
     n_print = len(re.findall(r"^Print Assumptions", src, re.M))
     closed = out.count("Closed under the global context")
     axioms = []
-    for blk in re.findall(r"Axioms:\n((?:.+\n?)+?)(?=\n\S|\Z)", out):
-        for line in blk.splitlines():
-            m = re.match(r"^(\S+)\s*:", line)
-            if m:
-                axioms.append(m.group(1))
+    in_blk = False
+    for line in out.splitlines():
+        if line.strip() == "Axioms:":
+            in_blk = True
+            continue
+        if not in_blk:
+            continue
+        if line[:1].isspace() and line.strip():
+            continue                      # continuation of the previous axiom's type
+        m = re.match(r"^([A-Za-z_][\w.']*)\s*(:.*)?$", line)
+        if m and line.strip() != "Closed under the global context":
+            axioms.append(m.group(1))     # an axiom name starts at column 0, its type may follow on indented lines
+        else:
+            in_blk = False
     bad = [a for a in axioms if a not in ALLOWED_AXIOMS]
     forbidden = re.findall(r"\b(Admitted|admit|Axiom|Parameter|Conjecture|Unset Guard|bypass_check)\b", src)
     ok = rc == 0 and not bad and not forbidden and n_print >= len(theorems) and (closed + (1 if axioms else 0)) >= 1
